@@ -30,4 +30,13 @@ Fixpoint mix_hess_half (nv : nat) (Bs : list sblock) (v : vec) : mat :=
 Fixpoint mix_spec (nv : nat) (Bs : list sblock) (v : vec) : R :=
   match Bs with [] => 0 | B :: t => b_spec nv B v + mix_spec nv t v end.
 Definition blocks_sym (Bs : list sblock) : Prop := forall B, In B Bs -> wsym 1 (b_m B) (b_wts B).
+
+(* the schedules of a stacked model in which EVERY schedule has m outcomes, as a list of blocks: block j = rows
+   [j*m, j*m + m) of A, b, q and the j-th weight matrix *)
+Definition shiftv (o : nat) (x : vec) : vec := fun i => x (o + i)%nat.
+Definition shiftm (o : nat) (A : mat) : mat := fun i al => A (o + i)%nat al.
+Definition block_of (m : nat) (W : @wts R) (A : mat) (b q : vec) (j : nat) : sblock :=
+  {| b_m := m; b_A := shiftm (j * m) A; b_b := shiftv (j * m) b; b_q := shiftv (j * m) q;
+     b_W := match W with Some w => Some (w j) | None => None end |}.
+Definition equal_blocks (ns m : nat) (W : @wts R) (A : mat) (b q : vec) : list sblock := map (block_of m W A b q) (seq 0 ns).
 End Mixed.
